@@ -685,3 +685,204 @@ fn c13_tdigest_foreign_encodings() {
     core::mem::forget(g);
     kani::cover!(true);
 }
+
+// ---------------------------------------------------------------------------------------------
+// merge step: structural invariants (C15 structural part, C10 total weight / extremes)
+// ---------------------------------------------------------------------------------------------
+
+static mut SCALE_MAX: [f64; 8] = [0.0; 8];
+static mut SCALE_CALLS: usize = 0;
+
+/// scale_function::max / normalizer depend on ln(): replaced by arbitrary finite values, so the decision
+/// "merge this centroid into the previous one or start a new one" is arbitrary at every position
+fn stub_scale_max(_q: f64, _normalizer: f64) -> f64 {
+    unsafe {
+        let i = SCALE_CALLS;
+        SCALE_CALLS += 1;
+        if i < 8 { SCALE_MAX[i] } else { 0.0 }
+    }
+}
+fn stub_normalizer(_compression: f64, _n: f64) -> f64 {
+    1.0
+}
+
+//@ props: C15 C10 C17
+//@ tier: quick
+//@ timeout: 1800
+//@ functions: tdigest::TDigestMut::compress
+//@ functions: tdigest::TDigestMut::do_merge
+//@ functions: tdigest::Centroid::add
+//@ functions: tdigest::TDigestMut::total_weight
+//@ functions: tdigest::centroid_cmp
+//@ stubs: scale_function::max -> arbitrary finite values per call (ln-based); scale_function::normalizer -> 1
+//@ bounds: a digest with 2 centroids (small integer means, weights 1..=8) and 2 buffered values (small integers); both merge directions; the merge decisions arbitrary
+//@ desc: whatever the scale function decides, compress() keeps the total weight (sum of centroid weights == total_weight == old total), leaves the means sorted and inside [min, max], never produces more centroids than inputs, empties the buffer, flips the merge direction, and keeps min / max the exact extremes
+#[kani::proof]
+#[kani::unwind(12)]
+#[kani::stub(scale_function::max, stub_scale_max)]
+#[kani::stub(scale_function::normalizer, stub_normalizer)]
+fn c15_merge_step_structural() {
+    unsafe {
+        SCALE_CALLS = 0;
+        let mut i = 0;
+        while i < 8 {
+            let v: f64 = kani::any();
+            kani::assume(v >= 0.0 && v <= 100.0);
+            SCALE_MAX[i] = v;
+            i += 1;
+        }
+    }
+    let small = || -> f64 {
+        let i: i8 = kani::any();
+        kani::assume(i >= -50 && i <= 50);
+        i as f64
+    };
+    let w0: u8 = kani::any();
+    let w1: u8 = kani::any();
+    kani::assume(w0 >= 1 && w0 <= 8 && w1 >= 1 && w1 <= 8);
+    let m0 = small();
+    let m1 = small();
+    kani::assume(m0 <= m1);
+    let b0 = small();
+    let b1 = small();
+    let mut lo = m0;
+    let mut hi = m1;
+    if b0 < lo { lo = b0; }
+    if b1 < lo { lo = b1; }
+    if b0 > hi { hi = b0; }
+    if b1 > hi { hi = b1; }
+    // a boundary centroid of weight 1 is the extreme sample itself; heavier ones may sit inside
+    let min = if w0 == 1 { lo } else { let x = small(); kani::assume(x <= lo); x };
+    let max = if w1 == 1 { hi } else { let x = small(); kani::assume(x >= hi); x };
+    let rev: bool = kani::any();
+    let mut cs = Vec::with_capacity(8);
+    cs.push(Centroid { mean: m0, weight: nz(w0 as u64) });
+    cs.push(Centroid { mean: m1, weight: nz(w1 as u64) });
+    let mut buf = Vec::with_capacity(8);
+    buf.push(b0);
+    buf.push(b1);
+    let mut d = TDigestMut {
+        k: 10,
+        reverse_merge: rev,
+        min,
+        max,
+        centroids: cs,
+        centroids_weight: w0 as u64 + w1 as u64,
+        centroids_capacity: 50,
+        buffer: buf,
+    };
+    let total = d.total_weight();
+    assert!(total == w0 as u64 + w1 as u64 + 2);
+    d.compress();
+    assert!(d.buffer.is_empty(), "buffer not emptied by compress");
+    assert!(d.total_weight() == total, "compress changed the total weight");
+    assert!(d.reverse_merge != rev, "merge direction not alternated");
+    let n = d.centroids.len();
+    assert!(n >= 1 && n <= 4, "more centroids than inputs");
+    let mut sum = 0u64;
+    let mut i = 0;
+    while i < n {
+        sum += d.centroids[i].weight.get();
+        assert!(d.centroids[i].mean >= d.min && d.centroids[i].mean <= d.max, "centroid mean outside [min, max]");
+        if i > 0 {
+            assert!(d.centroids[i - 1].mean <= d.centroids[i].mean, "centroid means not sorted after the merge");
+        }
+        i += 1;
+    }
+    assert!(sum == total, "centroid weights do not sum to total_weight");
+    assert!(d.min == min && d.max == max, "min / max are no longer the exact extremes");
+    kani::cover!(n == 4);
+    kani::cover!(n == 2);
+    core::mem::forget(d);
+}
+
+//@ props: C10 C15 C17
+//@ tier: quick
+//@ timeout: 1800
+//@ functions: tdigest::TDigestMut::merge
+//@ functions: tdigest::TDigestMut::do_merge
+//@ functions: tdigest::TDigestMut::total_weight
+//@ functions: tdigest::TDigestMut::min_value
+//@ functions: tdigest::TDigestMut::max_value
+//@ stubs: scale_function::max -> arbitrary finite values per call; scale_function::normalizer -> 1
+//@ bounds: receiver: one single-sample centroid, either merge direction (an odd or even number of earlier compressions); other: 2 centroids with small integer means, weights 1..=8 (heavy boundary centroids allowed, weight-1 boundary centroids sit at min / max), own min / max
+//@ desc: merge(other) sums the total weights, makes min / max the exact extremes of both digests whatever the merge direction, and leaves sorted centroid means inside [min, max]; the other digest is unchanged
+#[kani::proof]
+#[kani::unwind(12)]
+#[kani::stub(scale_function::max, stub_scale_max)]
+#[kani::stub(scale_function::normalizer, stub_normalizer)]
+fn c10_merge_absorbs_weight_and_extremes() {
+    unsafe {
+        SCALE_CALLS = 0;
+        let mut i = 0;
+        while i < 8 {
+            let v: f64 = kani::any();
+            kani::assume(v >= 0.0 && v <= 100.0);
+            SCALE_MAX[i] = v;
+            i += 1;
+        }
+    }
+    let small = || -> f64 {
+        let i: i8 = kani::any();
+        kani::assume(i >= -50 && i <= 50);
+        i as f64
+    };
+    let a = small();
+    let rev: bool = kani::any();
+    let mut cs = Vec::with_capacity(8);
+    cs.push(Centroid { mean: a, weight: nz(1) });
+    let mut d = TDigestMut {
+        k: 10,
+        reverse_merge: rev,
+        min: a,
+        max: a,
+        centroids: cs,
+        centroids_weight: 1,
+        centroids_capacity: 50,
+        buffer: Vec::with_capacity(8),
+    };
+    let w0: u8 = kani::any();
+    let w1: u8 = kani::any();
+    kani::assume(w0 >= 1 && w0 <= 8 && w1 >= 1 && w1 <= 8);
+    let b0 = small();
+    let b1 = small();
+    kani::assume(b0 <= b1);
+    let omin = if w0 == 1 { b0 } else { let x = small(); kani::assume(x <= b0); x };
+    let omax = if w1 == 1 { b1 } else { let x = small(); kani::assume(x >= b1); x };
+    let mut ocs = Vec::with_capacity(4);
+    ocs.push(Centroid { mean: b0, weight: nz(w0 as u64) });
+    ocs.push(Centroid { mean: b1, weight: nz(w1 as u64) });
+    let o = TDigestMut {
+        k: 10,
+        reverse_merge: kani::any(),
+        min: omin,
+        max: omax,
+        centroids: ocs,
+        centroids_weight: w0 as u64 + w1 as u64,
+        centroids_capacity: 50,
+        buffer: Vec::new(),
+    };
+    d.merge(&o);
+    assert!(d.total_weight() == 1 + w0 as u64 + w1 as u64, "merged total weight is not the sum");
+    let want_min = if omin < a { omin } else { a };
+    let want_max = if omax > a { omax } else { a };
+    assert!(d.min_value() == Some(want_min), "min is not the exact minimum of both digests");
+    assert!(d.max_value() == Some(want_max), "max is not the exact maximum of both digests");
+    let n = d.centroids.len();
+    assert!(n >= 1 && n <= 3);
+    let mut sum = 0u64;
+    let mut i = 0;
+    while i < n {
+        sum += d.centroids[i].weight.get();
+        assert!(d.centroids[i].mean >= d.min && d.centroids[i].mean <= d.max, "centroid mean outside [min, max] after merge");
+        if i > 0 {
+            assert!(d.centroids[i - 1].mean <= d.centroids[i].mean, "centroid means not sorted after merge");
+        }
+        i += 1;
+    }
+    assert!(sum == d.total_weight());
+    assert!(o.total_weight() == w0 as u64 + w1 as u64 && o.centroids.len() == 2);
+    kani::cover!(rev && omin < a && w0 > 1);
+    kani::cover!(!rev && omax > a);
+    core::mem::forget((d, o));
+}
